@@ -188,3 +188,10 @@ class VStore(ValueStore):
 
     def __repr__(self):
         return f"VStore({self.name})"
+
+
+class SizedVStore(VStore):
+    """A store object with a length - 0 while it is empty (a legal ValueStore: `if store:` is not `if store is not None:`)."""
+
+    def __len__(self):
+        return 0 if self.content is MISSING else 1
